@@ -63,6 +63,8 @@ def plan(tier, seed):
         shards.append({'name': 'nb_%d' % i, 'kind': 'nb', 'n': n, 'seed': seed * 1000 + 30 + i})
     shards.append({'name': 'seq', 'kind': 'seq', 'n': 300 if tier == 'quick' else 4000,
                    'seed': seed * 1000 + 38})
+    shards.append({'name': 'large', 'kind': 'large', 'sizes': [1100, 2300] if tier == 'quick' else
+                   [600, 1100, 2300, 4100, 6000], 'seed': seed * 1000 + 37})
     shards.append({'name': 'one', 'kind': 'one', 'n': 3000 if tier == 'quick' else 40000,
                    'seed': seed * 1000 + 39})
     return shards
@@ -96,7 +98,11 @@ def nb_call(rng):
     nl, nr = rng.randint(1, 10), rng.randint(1, 10)
     base = []
     for _ in range(rng.randint(1, 4)):
-        n = rng.choice([0, 1, 2, 3, 5, 8, 12, 20])
+        n = rng.choice([0, 1, 2, 3, 5, 8, 12, 20, 30])
+        if rng.random() < 0.1:      # periodic strings: edits inside runs are ambiguous alignments
+            unit = rng.choice([alpha[0], alpha[:2], alpha[:3]])
+            base.append((unit * 30)[:rng.choice([16, 18, 24, 33])])
+            continue
         base.append(''.join(rng.choice(alpha) for _ in range(n)))
 
     def near():
@@ -191,6 +197,43 @@ def run_case(case, rec, ssj=None, ev=None):
     return stats
 
 
+def large_case(case, rec, ssj):
+    """Tables beyond the sizes where an implementation might switch strategy.  Every output row is
+    judged exactly (sound / once / score / keys); completeness is decided on the planted pairs."""
+    rng = random.Random(case['seed'])
+    L, R, planted = gen.large_planted_tables(rng, case['n'], 'ed')
+    tok = {'kind': 'qgram', 'q': case['q'], 'padding': case['padding'], 'return_set': False}
+    call = {'api': 'edit_distance_join', 'ltable': L, 'rtable': R, 'l_key': 'id', 'r_key': 'id',
+            'l_attr': 's', 'r_attr': 's', 'tok': tok, 'threshold': case['k'], 'comp_op': case['op'],
+            'n_jobs': case['n_jobs'], 'out_sim_score': True}
+    try:
+        df = T.exec_call(ssj, call)
+    except Exception as e:
+        rec.count('calls_raised')
+        rec.add('raised', '%s: %s' % (type(e).__name__, str(e)[:80]))
+        return 0
+    ev = oracle.EditView(call)
+    stats = oracle.check_edit_join(df, call, rec, DECIDE - {'complete'}, ev, case=case, tag='[large] ')
+    oracle.check_ids(df, rec, case=case)
+    got = set(zip(df['l_id'].tolist(), df['r_id'].tolist()))
+    fn = model.OPS[case['op']]
+    req = 0
+    for (i, j, info) in planted:
+        d = model.levenshtein(info['l'], info['r'])
+        lt, rt = T.model_tokens(tok, info['l'], as_set=True), T.model_tokens(tok, info['r'], as_set=True)
+        if fn(d, case['k']) and set(lt) & set(rt):
+            req += 1
+            if (i, j) not in got:
+                rec.violation('complete', '[large, %d rows] qualifying planted pair (%r, %r) missing: '
+                              'levenshtein(%r, %r)=%d satisfies %s %r' % (case['n'], i, j, info['l'], info['r'],
+                                                                         d, case['op'], case['k']), case=case)
+    rec.count('required', req)
+    rec.count('large_planted_required', req)
+    for k, v in stats.items():
+        rec.count(k, v)
+    return req
+
+
 def run_shard(shard, rec):
     ssj = env.load()
     monitors.import_repo_modules()
@@ -220,6 +263,20 @@ def run_shard(shard, rec):
                         'strings_per_side': len(universe(cfg['alpha'], cfg['maxlen'])),
                         'q': cfg['q'], 'padding': cfg['padding'], 'return_set': cfg['return_set'],
                         'thresholds': cfg['ks']}, limit=1)
+    elif kind == 'large':
+        for x, n in enumerate(shard['sizes']):
+            for y, (q, k, pad) in enumerate([(2, 2, True), (3, 1, True), (2, 1, False)]):
+                if rec.tier == 'quick' and (x + y) % 2 == 0 and y:
+                    continue
+                case = {'gen': 'large', 'n': n, 'q': q, 'k': k, 'padding': pad, 'seed': shard['seed'] * 100 + 7 * x + y,
+                        'op': ('<=', '<=', '=')[(x + y) % 3], 'n_jobs': 1 if (x + y) % 3 else 2}
+                st = large_case(case, rec, ssj)
+                rec.case(sig=('large', n, q, k, pad), nontrivial=st > 0)
+                rec.count('large_table_cases')
+        rec.sample({'workload': 'LARGE', 'sizes': shard['sizes'], 'note': 'n-row tables of random filler '
+                    'strings with 14 planted pairs at distance 0/1/2 (also edits inside runs of long '
+                    'periodic strings); output rows judged exactly, completeness on the planted pairs'},
+                   limit=1)
     elif kind == 'seq':
         for i in range(shard['n']):
             sd = shard['seed'] * 100000 + i
